@@ -23,6 +23,7 @@ long g_multi(long (*cb)(long, unsigned), long a, unsigned b, int times);
 void g_callv(void (*cb)(void));
 int g_lib_id(void);
 long g_multi_idx(unsigned idx, long a, unsigned b, int times); // sim only
+int g_call_b(int (*cb)(short, double, char*, unsigned long), short s, double d, char* p, unsigned long ul);
 }
 
 #ifndef GUESTLIB_DIR
@@ -69,6 +70,27 @@ static long cb_body(int f, void* sbx, long a, unsigned b)
   return r;
 }
 
+struct CbRecB
+{
+  int f;
+  void* sandbox;
+  short s;
+  double d;
+  uintptr_t p;
+  unsigned long ul;
+};
+static std::vector<CbRecB> g_cblogB;
+static int g_retB;
+template<class Sbx, int N>
+static rlbox::tainted<int, Sbx> cbB(rlbox::rlbox_sandbox<Sbx>& sb,
+                                    rlbox::tainted<short, Sbx> s,
+                                    rlbox::tainted<double, Sbx> d,
+                                    rlbox::tainted<char*, Sbx> p,
+                                    rlbox::tainted<unsigned long, Sbx> ul)
+{
+  g_cblogB.push_back(CbRecB{ 200 + N, &sb, s.UNSAFE_unverified(), d.UNSAFE_unverified(), (uintptr_t)p.UNSAFE_unverified(), ul.UNSAFE_unverified() });
+  return g_retB;
+}
 template<class Sbx, int N>
 static rlbox::tainted<long, Sbx> cbA(rlbox::rlbox_sandbox<Sbx>& sb, rlbox::tainted<long, Sbx> a, rlbox::tainted<unsigned, Sbx> b)
 {
@@ -139,11 +161,17 @@ struct G
     SimSbx::guest_call<void>(idx);
   }
   static int32_t lib_id() { return LIB; }
+  static int32_t call_b(uint32_t idx, int16_t s, double d, uint32_t p, uint32_t ul)
+  {
+    bev("guest lib%d call_b(entry %u)", LIB, idx);
+    return SimSbx::guest_call<int32_t, int16_t, double, uint32_t, uint32_t>(idx, s, d, p, ul) + 1;
+  }
 };
 template<int LIB>
 static std::vector<Sym> make_lib()
 {
-  return { { "g_multi", (void*)&G<LIB>::multi },
+  return { { "g_call_b", (void*)&G<LIB>::call_b },
+           { "g_multi", (void*)&G<LIB>::multi },
            { "g_callv", (void*)&G<LIB>::callv },
            { "g_lib_id", (void*)&G<LIB>::lib_id },
            { "g_multi_idx", (void*)&G<LIB>::multi } };
@@ -168,6 +196,11 @@ struct BT<SimSbx>
   static void callv(rlbox::rlbox_sandbox<SimSbx>& sb, O& owner)
   {
     sb.invoke_sandbox_function(g_callv, owner);
+  }
+  template<class O, class P>
+  static int call_b(rlbox::rlbox_sandbox<SimSbx>& sb, O& owner, short s, double d, P p, unsigned long ul)
+  {
+    return sb.invoke_sandbox_function(g_call_b, owner, s, d, p, ul).UNSAFE_unverified();
   }
   static long expect_acc(const std::vector<long>& rs)
   {
@@ -195,6 +228,11 @@ struct BT<NoopSbx>
   static void callv(rlbox::rlbox_sandbox<NoopSbx>& sb, O& owner)
   {
     sb.template INTERNAL_invoke_with_func_ptr<decltype(g_callv)>("g_callv", reinterpret_cast<void*>(&g_callv), owner);
+  }
+  template<class O, class P>
+  static int call_b(rlbox::rlbox_sandbox<NoopSbx>& sb, O& owner, short s, double d, P p, unsigned long ul)
+  {
+    return sb.template INTERNAL_invoke_with_func_ptr<decltype(g_call_b)>("g_call_b", reinterpret_cast<void*>(&g_call_b), owner, s, d, p, ul).UNSAFE_unverified();
   }
   static long expect_acc(const std::vector<long>& rs)
   {
@@ -225,6 +263,11 @@ struct BT<DylibSbx>
   {
     sb.invoke_sandbox_function(g_callv, owner);
   }
+  template<class O, class P>
+  static int call_b(rlbox::rlbox_sandbox<DylibSbx>& sb, O& owner, short s, double d, P p, unsigned long ul)
+  {
+    return sb.invoke_sandbox_function(g_call_b, owner, s, d, p, ul).UNSAFE_unverified();
+  }
   static long expect_acc(const std::vector<long>& rs) { return BT<NoopSbx>::expect_acc(rs); }
   static bool ret_representable(long) { return true; }
 };
@@ -245,10 +288,12 @@ enum Kind
   K_CALL_RAW,
   K_DESTROY_SBX,
   K_CREATE_SBX,
+  K_REGB,
+  K_CALLB,
   K_COUNT
 };
 static const char* kKind[] = { "reg",         "regv", "fill",  "unreg",    "destroy_owner", "move_construct", "move_assign",
-                               "self_assign", "call", "callv", "call_all", "call_raw",      "destroy_sbx",    "create_sbx" };
+                               "self_assign", "call", "callv", "call_all", "call_raw",      "destroy_sbx",    "create_sbx", "reg_mixed_signature", "call_mixed_signature" };
 static_assert(sizeof(kKind) / sizeof(kKind[0]) == K_COUNT);
 
 // ---------------------------------------------------------------- the run, per backend
@@ -258,17 +303,20 @@ struct Runner
   using Sandbox = rlbox::rlbox_sandbox<Sbx>;
   using OwnerA = rlbox::sandbox_callback<long (*)(long, unsigned), Sbx>;
   using OwnerV = rlbox::sandbox_callback<void (*)(), Sbx>;
+  using OwnerB = rlbox::sandbox_callback<int (*)(short, double, char*, unsigned long), Sbx>;
   struct Slot
   {
     std::unique_ptr<OwnerA> a;
     std::unique_ptr<OwnerV> v;
+    std::unique_ptr<OwnerB> b;
     // model
     bool live = false; // holds a registration of the current incarnation of sandbox s
     bool stale = false; // registration belonged to an incarnation that was destroyed
     int s = -1, f = -1, inc = -1;
-    bool exists() const { return a || v; }
+    bool exists() const { return a || v || b; }
     bool is_v() const { return (bool)v; }
-    bool flag_unregistered() const { return a ? a->is_unregistered() : v->is_unregistered(); }
+    int kind() const { return a ? 0 : v ? 1 : 2; }
+    bool flag_unregistered() const { return a ? a->is_unregistered() : v ? v->is_unregistered() : b->is_unregistered(); }
   };
   struct SbxModel
   {
@@ -276,6 +324,7 @@ struct Runner
     bool created = false;
     int inc = 0;
     int lib = 0;
+    rlbox::tainted<char*, Sbx> buf = nullptr; // sandbox buffer used as pointer argument (sim)
     std::map<int, int> reg; // function -> slot index
     std::set<int> refused; // functions whose registration was refused for lack of capacity
   };
@@ -289,6 +338,7 @@ struct Runner
   explicit Runner(Ctx& ctx)
     : c(ctx)
   {}
+  static void* keyB(int n) { return n == 0 ? (void*)&cbB<Sbx, 0> : (void*)&cbB<Sbx, 1>; }
 
   std::vector<size_t> existing()
   {
@@ -302,7 +352,7 @@ struct Runner
   {
     std::vector<size_t> v;
     for (size_t i = 0; i < slots.size(); i++)
-      if (slots[i].exists() && slots[i].live && (s < 0 || slots[i].s == s) && (kind < 0 || (int)slots[i].is_v() == kind))
+      if (slots[i].exists() && slots[i].live && (s < 0 || slots[i].s == s) && (kind < 0 || slots[i].kind() == kind))
         v.push_back(i);
     return v;
   }
@@ -313,6 +363,8 @@ struct Runner
     Sandbox& sb = *S[(size_t)sl.s].sb;
     if (sl.a)
       return (uint64_t)(uintptr_t)sl.a->UNSAFE_sandboxed(sb);
+    if (sl.b)
+      return (uint64_t)(uintptr_t)sl.b->UNSAFE_sandboxed(sb);
     return (uint64_t)(uintptr_t)sl.v->UNSAFE_sandboxed(sb);
   }
 
@@ -360,7 +412,7 @@ struct Runner
           if (e.kind == 2)
             in_table.insert(e.key);
         for (auto& [f, si] : S[s].reg)
-          in_model.insert(f >= 100 ? (void*)poolV[(size_t)(f - 100)] : poolA[(size_t)f].key);
+          in_model.insert(f >= 200 ? keyB(f - 200) : f >= 100 ? (void*)poolV[(size_t)(f - 100)] : poolA[(size_t)f].key);
         if (in_table != in_model) {
           c.violate("C13",
                     std::string("reachable_set_differs_from_live_owners@") + opn,
@@ -379,7 +431,9 @@ struct Runner
     SbxModel& m = S[(size_t)s];
     Slot sl;
     Outcome o;
-    if (f >= 100)
+    if (f >= 200)
+      o = attempt([&] { sl.b = std::make_unique<OwnerB>(f == 200 ? m.sb->register_callback(&cbB<Sbx, 0>) : m.sb->register_callback(&cbB<Sbx, 1>)); });
+    else if (f >= 100)
       o = attempt([&] { sl.v = std::make_unique<OwnerV>(m.sb->register_callback(poolV[(size_t)(f - 100)])); });
     else
       o = attempt([&] { sl.a = std::make_unique<OwnerA>(poolA[(size_t)f].reg(*m.sb)); });
@@ -590,11 +644,14 @@ struct Runner
             if (op.kind == K_UNREG) {
               if (sl.a)
                 sl.a->unregister();
+              else if (sl.b)
+                sl.b->unregister();
               else
                 sl.v->unregister();
             } else {
               sl.a.reset();
               sl.v.reset();
+              sl.b.reset();
             }
           });
           c.ev("%s owner %zu -> %s", opn, si, oname(o));
@@ -613,6 +670,8 @@ struct Runner
           Slot n;
           if (slots[si].a)
             n.a = std::make_unique<OwnerA>(std::move(*slots[si].a));
+          else if (slots[si].b)
+            n.b = std::make_unique<OwnerB>(std::move(*slots[si].b));
           else
             n.v = std::make_unique<OwnerV>(std::move(*slots[si].v));
           n.live = slots[si].live;
@@ -636,7 +695,7 @@ struct Runner
           if (ex.size() < 2)
             break;
           size_t si = ex[(uint64_t)op.a[1] % ex.size()], di = ex[(uint64_t)op.a[2] % ex.size()];
-          if (si == di || slots[si].is_v() != slots[di].is_v())
+          if (si == di || slots[si].kind() != slots[di].kind())
             break;
           if (slots[di].live)
             c.probe("move_assign_onto_live_owner");
@@ -645,6 +704,8 @@ struct Runner
           Outcome o = attempt([&] {
             if (slots[si].a)
               *slots[di].a = std::move(*slots[si].a);
+            else if (slots[si].b)
+              *slots[di].b = std::move(*slots[si].b);
             else
               *slots[di].v = std::move(*slots[si].v);
           });
@@ -675,6 +736,10 @@ struct Runner
           if (sl.a) {
             OwnerA& x = *sl.a;
             OwnerA& alias = x;
+            x = std::move(alias);
+          } else if (sl.b) {
+            OwnerB& x = *sl.b;
+            OwnerB& alias = x;
             x = std::move(alias);
           } else {
             OwnerV& x = *sl.v;
@@ -780,6 +845,66 @@ struct Runner
           }
           break;
         }
+        case K_REGB:
+          do_reg(s, 200 + (int)(op.a[1] & 1), false);
+          break;
+        case K_CALLB: {
+          auto lv = live_slots(-1, 2);
+          if (lv.empty())
+            break;
+          Slot& sl = slots[lv[(uint64_t)op.a[1] % lv.size()]];
+          SbxModel& m = S[(size_t)sl.s];
+          static const short ss[] = { 0, 1, -1, 32767, -32768, 300 };
+          static const double ds[] = { 0.0, -0.0, 1.5, -2.25e300, 5e-324, 3.5e38 };
+          static char hostbuf[64];
+          short sv = ss[(uint64_t)op.a[2] % 6];
+          double dv = ds[(uint64_t)op.a[3] % 6];
+          unsigned long ulv = (op.a[4] & 1) ? 0xFFFFFFFFUL : (unsigned long)((uint64_t)op.a[4] * 2654435761u) & 0xFFFFFFFFUL;
+          if (!BT<Sbx>::foreign && (op.a[4] & 2))
+            ulv = 0xFFFFFFFF00000001UL; // host-ABI backends carry the full width
+          bool nullp = (op.a[5] & 1) != 0;
+          g_cblogB.clear();
+          g_retB = (int)(((uint64_t)op.a[5] * 40503u) % 2000001u) - 1000000;
+          int got = 0;
+          uintptr_t want_p = 0;
+          Outcome o = attempt([&] {
+            if constexpr (std::is_same_v<Sbx, SimSbx>) {
+              rlbox::tainted<char*, Sbx> p = nullptr;
+              if (!nullp) {
+                if (!m.buf)
+                  m.buf = m.sb->template malloc_in_sandbox<char>(32);
+                p = m.buf + 5;
+              }
+              want_p = (uintptr_t)p.UNSAFE_unverified();
+              got = BT<Sbx>::call_b(*m.sb, *sl.b, sv, dv, p, ulv);
+            } else {
+              rlbox::tainted<char*, Sbx> p = nullptr;
+              if (!nullp)
+                p = m.sb->UNSAFE_accept_pointer(&hostbuf[7]);
+              want_p = (uintptr_t)p.UNSAFE_unverified();
+              got = BT<Sbx>::call_b(*m.sb, *sl.b, sv, dv, p, ulv);
+            }
+          });
+          c.ev("call_mixed_signature owner f%d -> %s", sl.f, oname(o));
+          c.probe("callback_with_short_double_pointer_ulong");
+          if (o != OK) {
+            c.violate("C12", "callback_call_fails@call_mixed_signature", "%s: %s", oname(o), g_last_abort_msg.c_str());
+            break;
+          }
+          bool ok = g_cblogB.size() == 1;
+          if (ok) {
+            const CbRecB& r = g_cblogB[0];
+            uint64_t d1, d2;
+            memcpy(&d1, &r.d, 8);
+            memcpy(&d2, &dv, 8);
+            ok = r.f == sl.f && r.sandbox == m.sb.get() && r.s == sv && d1 == d2 && r.p == want_p && r.ul == ulv;
+          }
+          if (!ok)
+            c.violate("C12", "wrong_arguments@call_mixed_signature", "%zu runs; short/double/pointer/unsigned long arguments or the function/sandbox identity differ from what the guest passed", g_cblogB.size());
+          else if (got != g_retB + 1)
+            c.violate("C12", "wrong_result_delivered_to_guest@call_mixed_signature", "guest received %d expected %d", got - 1, g_retB);
+          break;
+        }
         case K_DESTROY_SBX: {
           SbxModel& m = S[(size_t)s];
           if (!m.created)
@@ -798,6 +923,7 @@ struct Runner
             c.fired("F12_destroy_sandbox_with_live_owners");
           m.reg.clear();
           m.refused.clear();
+          m.buf = nullptr;
           break;
         }
         case K_CREATE_SBX: {
@@ -843,7 +969,7 @@ struct CallbackWorld : World
     int nsbx = (int)r.range(1, NSBX);
     p.cfg = { backend, slots, nsbx };
     int n = (int)r.range(4, thorough ? 60 : 40);
-    std::vector<unsigned> w = { 14, 4, 3, 6, 6, 4, 7, 2, 12, 3, 2, 4, 2, 3 };
+    std::vector<unsigned> w = { 14, 4, 3, 6, 6, 4, 7, 2, 12, 3, 2, 4, 2, 3, 4, 7 };
     for (auto& x : w)
       if (r.chance(1, 6))
         x = 0;
